@@ -7,6 +7,7 @@ from vf.ref import nfa as rn
 from vf.worker import call
 
 PROP = "C04"
+TECHNIQUE = "runtime contracts with reference-model oracle; generators drained by the monitor under sys.monitoring step budgets (bounded progress)"
 RULE = ("eps-NFA/NFA/DFA cases as in C01 (<=5 states, emphasis on eps cycles, dead states, several/final start "
         "states; <=6 states for is_acyclic); is_empty/bool, is_deterministic, is_acyclic compared with reference "
         "reachability / structural definition / reachable-cycle search; get_accepted_words(n) for n in 0..4 and None "
